@@ -47,6 +47,7 @@ Definition child_plans (cis : Z) (o : opts) (ps0 : list parent) (hist : Z -> hre
   match hist (fst entry) with
   | HError => Err EDatasource
   | HNotFound => if o_ignore_missing o then Ok [] else Err (ENoHistory (fst entry))
+  | HFound [] => if o_ignore_missing o then Ok [] else Err (ENoHistory (fst entry))
   | HFound cl => collect (group_plans cis o ps0 (fst entry) cl) (group_by_parent (snd entry))
   end.
 
@@ -89,7 +90,8 @@ Lemma do_child_plans : forall cis o ps0 hist st entry,
   end.
 Proof.
   intros. unfold do_child, child_plans. destruct entry as [fid locations]. cbn [fst snd].
-  destruct (hist fid) as [cl| |]; [|destruct (o_ignore_missing o); reflexivity|reflexivity].
+  destruct (hist fid) as [[|c0 cl]| |];
+    [destruct (o_ignore_missing o); reflexivity| |destruct (o_ignore_missing o); reflexivity|reflexivity].
   apply fold_res_collect. intros st' a. apply do_group_plans.
 Qed.
 
